@@ -37,12 +37,13 @@ import flow
 import mockca
 import tacdrun
 import vlib
-from ext import sched_c20
+from ext import interrupt_c20, sched_c20
 
 TOK_DIR = ".well-known/acme-challenge"
 SUN_PATH_MAX = 107
 GROUPS = ("http-01-echo", "tls-alpn-01-tacd-tcp", "tls-alpn-01-tacd-unix")
 LONG_IDENT = "x" * 63 + "." + "y" * 10 + ".test"
+INTERRUPT_JUDGED = GROUPS     # groups whose histories after an interrupted attempt are judged (interrupt_c20)
 
 
 # ------------------------------------------------------------------------------------------ helpers
@@ -89,6 +90,8 @@ class HoldCA(mockca.MockCA):
         self.release = threading.Event()
 
     def conform(self, kind, method, path, jws, rec):
+        if interrupt_c20.hold(self, kind, path):      # (an attempt interrupted after its challenge hooks)
+            return self.problem(500, "serverInternal", "held")
         if kind == "newOrder" and self.hold_at is not None and len(self.orders) >= self.hold_at:
             self.reached.set()
             self.release.wait(600)
@@ -208,6 +211,8 @@ def widen(ctx, plain):
     # (7) the CA's connection schedule: several vantage points connected at once, handshakes out of accept order,
     # a silent probe kept open, finished connections kept open (ext/sched_c20.py)
     sched_c20.widen(ctx, add)
+    # (8) an attempt interrupted between its challenge hooks and its clean hooks, the next one gets the same token
+    interrupt_c20.widen(ctx, add, GROUPS, INTERRUPT_JUDGED)
     return out
 
 
@@ -453,7 +458,10 @@ def _run_ext(sc, d, helper, tacd_dir, cleanup):
         opts["validate_after_polls"] = int(asy["after_polls"])
     if asy.get("delay_s"):
         opts["validate_delay_s"] = float(asy["delay_s"])
-    ca = HoldCA(helper, opts=opts)
+    if sc.get("reuse_authz"):
+        opts["reuse_pending_authz"] = True
+    ca = HoldCA(helper, opts=opts, rules=interrupt_c20.rules(sc))
+    interrupt_c20.arm(ca, sc)
     ca.validator = validator
     ca.start()
 
@@ -521,8 +529,10 @@ def _run_ext(sc, d, helper, tacd_dir, cleanup):
     stops = sorted(k for k in (sc.get("restart_after") or []) if 0 < k < n)
     stderr_tail, rcs = "", []
 
+    resume, running, interrupt_note = interrupt_c20.first_life(sc, ca, cfg_path, denv, log)
+
     def done_count():
-        recs = flow.post_ops(log)
+        recs = [r for r in flow.post_ops(log) if r["t"] >= resume()]
         per = {name: 0 for name in info}
         for r in recs:
             nm = flow.hook_args(r).get("cert")
@@ -534,7 +544,7 @@ def _run_ext(sc, d, helper, tacd_dir, cleanup):
         ca.hold_at = upto * len(certs) if upto < n else None
         ca.reached.clear()
         ca.release.clear()
-        dmn = flow.Daemon(cfg_path, env=denv, stderr_path=cfg_path + ".stderr%d" % life)
+        dmn = (running if life == 0 else None) or flow.Daemon(cfg_path, env=denv, stderr_path=cfg_path + ".stderr%d" % life)
         flow.wait_progress(lambda: (done_count() >= upto and (upto == n or ca.reached.is_set())) or not dmn.alive(),
                            lambda: len(ca.log), idle=40 + 10 * n, cap=600)
         rcs.append(dmn.stop())
@@ -544,7 +554,8 @@ def _run_ext(sc, d, helper, tacd_dir, cleanup):
     ca.stop()
 
     # ---- results, one per certificate
-    all_posts = flow.post_ops(log)
+    all_posts = [r for r in flow.post_ops(log) if r["t"] >= resume()]
+    validations[:] = [v for v in validations if v["t"] >= resume()]
     results = []
     counts = []
     for v in validations:
@@ -625,6 +636,9 @@ def _run_ext(sc, d, helper, tacd_dir, cleanup):
             res["git"] = gitres
         results.append(res)
     results[0]["counts"] = counts
+    if sc.get("interrupt"):
+        results[0]["interrupt_note"] = interrupt_note
+        interrupt_c20.reap(d)
     # kill any responder a failed run may have left behind (do not leak processes out of the check)
     for pr in {pl["pid_root"] for pl in place.values()} | {decoy["TACD_PID_ROOT"]}:
         for fn in (os.listdir(pr) if os.path.isdir(pr) else []):
@@ -661,6 +675,7 @@ def observe(ctx, results):
                                     "delayed-thread" if asy.get("delay_s") else "inside-challenge-post"))
         ctx.count("vantage-points:%d" % sc.get("vantage", 1))
         sched_c20.count(ctx, sc)
+        interrupt_c20.count(ctx, sc, r)
         for key in ("restart_after", "stale", "roots", "envspec"):
             if sc.get(key):
                 ctx.count("%s:%s" % (key, sc[key] if isinstance(sc[key], str) else ",".join(str(x) for x in sc[key])))
